@@ -1,6 +1,7 @@
 package decoders
 
 import (
+	"bytes"
 	"context"
 	"errors"
 	"fmt"
@@ -17,6 +18,23 @@ import (
 func filePosition(file io.ReadSeeker) (position int64) {
 	position, _ = file.Seek(0, io.SeekCurrent)
 	return
+}
+
+// readAmmoBytes reads exactly size bytes of ammo payload.
+// Buffer grows only as data really arrives, so that invalid size in ammo file
+// can cause neither panic nor huge allocation.
+func readAmmoBytes(r io.Reader, size int) (data []byte, n int, err error) {
+	if size < 0 {
+		return nil, 0, fmt.Errorf("negative ammo size: %d", size)
+	}
+	const maxPrealloc = 1 << 20
+	var buf bytes.Buffer
+	buf.Grow(min(size, maxPrealloc))
+	read, err := io.CopyN(&buf, r, int64(size))
+	if err == io.EOF && read > 0 {
+		err = io.ErrUnexpectedEOF
+	}
+	return buf.Bytes(), int(read), err
 }
 
 var (
